@@ -3,7 +3,8 @@ RULE = ("for every contract and every from-version below/at/above each bound the
         "(PrevVersion, 0.16, 0.17, 0.18, 0.19, Version as they apply): the CURRENT sources compiled in a scratch copy with that version "
         "constant and raw storage methods are deployed on an n-member chain (n in 1..7), a seeded synthetic pre-upgrade storage in the "
         "layout documented for that version is written (bare 20-byte balance accounts, bare 32/57-byte container keys, legacy netmap node "
-        "structures and address keys, committee-less NNS TLDs, notary flags with ballots at gaps 0/1/19/20/21/22/500 blocks), then `update` "
+        "structures in rings of stored snapshot count 1/3/7/10/11/12/20/255 (non-empty lists above ring index 9, current index below and above 9) "
+        "and address keys, committee-less NNS TLDs, notary flags with ballots at gaps 0/1/19/20/21/22/500 blocks), then `update` "
         "with the executable compiled from the repository under test is invoked by strangers, single members, the 2n/3+1 account, "
         "majorities of subsets, one-short and one-over multi-signatures and the required n/2+1 account, with caller data that tries to "
         "spoof the version. Every 4th case leaves the quantifier (malformed values, colliding keys, mixed layouts): compared with the model only. "
@@ -36,3 +37,6 @@ CLAIMS = {
                      "recorded dumps) + an independent monitor on the contracts' own read API.",
                 note=NOTE, technique=TECH),
 }
+
+for _p in PROPS.values():
+    _p.setdefault("cover_files", ['contracts/', 'common/version.go', 'common/update.go', 'common/vote.go'])
